@@ -1,6 +1,7 @@
 package drv
 
 import (
+	"fmt"
 	"os"
 	"path/filepath"
 	"time"
@@ -9,7 +10,7 @@ import (
 // CmdRetryAll: one fault-free run against one run in which the FIRST attempt at every block fails at
 // its pn_sync_version insert (InsertSynced, the last statement of a block): DBlockSync rolls back and
 // applies the same height again in the same process.  Whatever the first attempt left in the daemon's
-// memory must not reach the ledger: the final dumps must be equal.
+// memory must not reach the ledger: the dump after EVERY committed height must equal that of the fault-free run.
 func CmdRetryAll(c *Common, stmt string) int {
 	start := time.Now()
 	root := filepath.Join(c.Work, "retryall")
@@ -17,7 +18,7 @@ func CmdRetryAll(c *Common, stmt string) int {
 	if stmt == "" {
 		stmt = "pn_sync_version"
 	}
-	ref, pi, err := RunChild(c, c.replayJob(filepath.Join(root, "ref"), nil, false))
+	ref, pi, err := RunChild(c, c.replayJob(filepath.Join(root, "ref"), nil, true))
 	if err != nil || ref == nil || !ref.OK {
 		Emit(map[string]interface{}{"cmd": "retryall", "error": "reference run: " + describe(ref, pi, err)})
 		return 2
@@ -27,7 +28,7 @@ func CmdRetryAll(c *Common, stmt string) int {
 		Emit(map[string]interface{}{"cmd": "retryall", "error": err.Error()})
 		return 2
 	}
-	job := c.replayJob(filepath.Join(root, "retry"), nil, false)
+	job := c.replayJob(filepath.Join(root, "retry"), nil, true)
 	job.RetryAll = stmt
 	res, pi, err := RunChild(c, job)
 	out := map[string]interface{}{"cmd": "retryall", "scenario": c.Scenario, "seed": c.Seed, "statement": stmt}
@@ -48,8 +49,14 @@ func CmdRetryAll(c *Common, stmt string) int {
 			out["ok"], out["final_equal"], out["diff"] = false, false, d
 			out["dumps"] = []string{ref.FinalDump, res.FinalDump}
 			violations++
+		} else if h, found := firstHashDiff(ref.Hashes, res.Hashes); found {
+			// the final ledgers agree but the ledger after an earlier block did not (a later block hid the difference)
+			out["ok"], out["final_equal"], out["first_diff_height"] = false, true, h
+			out["diff"] = map[string]interface{}{"only_got": []string{fmt.Sprintf("the committed ledgers differ after height %d (dump hashes %s / %s) although the final ones agree", h, ref.Hashes[h], res.Hashes[h])}}
+			violations++
 		} else {
 			out["ok"], out["final_equal"] = true, true
+			out["heights_compared"] = len(ref.Hashes)
 		}
 	}
 	Emit(out)
